@@ -40,10 +40,15 @@ def meta(tier, seed):
                                                  "a TreeBandit bandit", "code that draws from and re-seeds numpy's and "
                                                  "random's process-wide generators"],
                    "hash_seeds": ["0", "1", "4242", "random"],
+                   "bandit_seeds": "101 + VERIF_SEED for every combination; additionally seed 0 for %d randomised ones" % len(ZERO_SEED),
                    "tree_driver": "three identical feature columns, one-hot queries, interferer seed = first seed whose "
                                   "stand-alone DecisionTreeRegressor splits on a different column"},
         "assumptions": ["OMP/BLAS threads = 1 (stated by the property)"],
     }
+
+
+ZERO_SEED = [("eg5", "none"), ("ts", "none"), ("sm", "none"), ("lts1", "none"), ("rnd", "none"), ("eg5", "rad"),
+             ("ts", "knn"), ("eg5", "lsh"), ("sm", "clu"), ("eg5", "mclu"), ("ts", "tree")]
 
 
 def shards(tier, seed):
@@ -52,6 +57,10 @@ def shards(tier, seed):
         out.append({"part": "a", "ln": ln, "nn": nn, "seed": 101 + seed})
     for hs in ("0", "1", "4242", "random"):
         out.append({"part": "b", "hashseed": hs, "seed": 101 + seed})
+    # the seed value 0 (falsy): a seeded run must be reproducible for it as for any other seed
+    for ln, nn in ZERO_SEED:
+        out.append({"part": "a", "ln": ln, "nn": nn, "seed": 0})
+    out.append({"part": "b", "hashseed": "1", "seed": 0})
     return A.heavy_first(out)
 
 
